@@ -295,8 +295,10 @@ class ImageBatch(DataTensor):
         index: Union[EllipsisType, int, slice, Sequence[Union[EllipsisType, int, slice]]],
     ) -> Union[Image, TImageBatch, Tensor]:
         r"""Get image at specified batch index, get a sub-batch, or a region of interest tensor."""
-        if index is ...:
+        if index is ... or (type(index) is tuple and all(i is ... for i in index)):
             return self._make_instance(self.tensor(), self._grid)
+        if index is None or (type(index) is tuple and any(i is None for i in index)):
+            return self.tensor()[index]  # result with new axis is neither image batch nor image
         if type(index) is tuple:
             # Resolve additional ellipses
             index = [j for i, j in enumerate(index) if j is not ... or ... not in index[:i]]
